@@ -16,6 +16,7 @@ CONSTANTS
   LineSet = {"endif"}
   MaxD = 3
   AtomSet = {"0", "1", "2", "m1", "m2", "3", "31", "32", "63", "64", "imax", "imaxx", "imin", "imin1", "umax", "umaxx", "p31", "p31m", "mp31", "p32", "p32m", "p63x", "p63u", "0u", "1u", "2u", "63u", "64u", "p31u", "p32u", "imaxu", "defD", "defU", "U", "D", "E"}
+  GapSet = {"sp"}
   OpSet = {"u-", "u~", "u!", "u+", "*", "/", "%", "+", "-", "<<", ">>", "<", "<=", ">", ">=", "==", "!=", "&", "^", "|", "&&", "||", "?:"}
 INIT Init
 NEXT Next
